@@ -292,30 +292,7 @@ func (c *Ctx) TypeTables(ob *core.Obligation) {
 		return true
 	})
 	// 4. expect*: functions func(Value, Range) (*T, InterpreterError) with a type switch on Value
-	expects := map[string]string{} // reported type name -> accepted Value type
-	for _, sw := range c.Switches() {
-		if sw.Sum != sum || relOf(sw) != "internal/interpreter" || len(sw.Clauses) != 1 || len(sw.Clauses[0].Types) != 1 || sw.Default == nil {
-			continue
-		}
-		nt, ok := types.Unalias(sw.Clauses[0].Types[0]).(*types.Named)
-		if !ok {
-			continue
-		}
-		// the constant placed in TypeError.Expected in the default arm
-		ast.Inspect(sw.Default.CC, func(n ast.Node) bool {
-			kv, ok := n.(*ast.KeyValueExpr)
-			if !ok {
-				return true
-			}
-			if id, ok := kv.Key.(*ast.Ident); ok && id.Name == "Expected" {
-				if tv := in.TypesInfo.Types[kv.Value]; tv.Value != nil && tv.Value.Kind() == constant.String {
-					expects[constant.StringVal(tv.Value)] = nt.Obj().Name()
-					c.R.Functions[core.FuncName(sw.Func)] = true
-				}
-			}
-			return true
-		})
-	}
+	expects := c.leafExpectations() // reported type name -> accepted Value type
 	// compare
 	names := make([]string, 0, len(allowed))
 	for k := range allowed {
@@ -405,6 +382,18 @@ func (c *Ctx) renderSig(info *types.Info, m *types.Func, t *types.Named) string 
 		se, ok := n.(*ast.SelectorExpr)
 		if !ok {
 			return true
+		}
+		// rendering delegated to another method of the same type (MarshalJSON quoting String())
+		if sel := info.Selections[se]; sel != nil && sel.Kind() == types.MethodVal {
+			if f, ok := sel.Obj().(*types.Func); ok && f != m && f.Name() == "String" {
+				if rn, ok := types.Unalias(derefT(sel.Recv())).(*types.Named); ok && rn.Obj() == t.Obj() {
+					for _, k := range strings.Split(c.renderSig(info, f, t), ", ") {
+						if k != "" {
+							set[k] = true
+						}
+					}
+				}
+			}
 		}
 		if sel := info.Selections[se]; sel != nil && sel.Kind() == types.FieldVal && st != nil {
 			for i := 0; i < st.NumFields(); i++ {
